@@ -44,7 +44,8 @@ func init() {
 			"calls for which no primary method is applicable are only checked weakly (statement silent): no Go fault, and if methods run they are applicable, current and run once",
 			"the state key is sound if generic.Aux{methods,cache,defaultCaller} is all the state dispatch depends on (Lambda.Closure is overwritten before every use)",
 		},
-		Exec: exec,
+		Exec:      execAny, // sequential BFS transitions and the concurrent scenarios (conc.go)
+		Enumerate: concEnumerate,
 		BFS: &engine.BFS{
 			Ops: func(tier string) []string {
 				var ops []string
@@ -57,7 +58,7 @@ func init() {
 			NoDedupDepth: func(tier string) int { return 1 + noDedupLen(tier) },
 			StateCap:     stateCap,
 		},
-		Required: []string{"path-hit", "path-miss", "recall-after-mutation", "replace", "remove",
+		Required: []string{"executions-preempted", "race-executions", "group-d", "path-hit", "path-miss", "recall-after-mutation", "replace", "remove",
 			"arounds>=2", "afters>=2", "befores>=2", "primaries>=2", "lexicographic-conflict", "no-applicable-method",
 			"remove-entry-first-defined-unspecialised",
 			"around-without-call-next-method", "call-after-remove"},
